@@ -51,12 +51,18 @@ theorem fetchTail_range_arith (cont : Bool) (cfgStart cfgEnd : Int) (treeSize be
     · simp only [hn, decide_false, Bool.false_eq_true, if_false]
       split <;> rename_i h <;> simp only [decide_eq_true_eq] at h <;> simp <;> omega
 
-/-- the early exit and the empty-root shortcut of the code are the model's `gate` tests -/
+/-- the early exit and the empty-root shortcut of the code are the model's `gate` tests (the shortcut read off the regenerated body of
+`verifyConsistency`: with the check on and no usable proof it still returns nil exactly for an empty destination) -/
 theorem gate_tests (sth begin treeSize : Nat) :
-    Gen.fetchTailUpToDate sth begin = decide (sth ≤ begin) ∧ Gen.gateSkipsEmpty treeSize = decide (treeSize = 0) := by
+    Gen.fetchTailUpToDate sth begin = decide (sth ≤ begin) ∧
+    (Gen.verifyConsistencyChain treeSize false true true = 0 ↔ treeSize = 0) := by
   constructor
   · simp only [Gen.fetchTailUpToDate]; congr 1; apply propext; omega
-  · simp only [Gen.gateSkipsEmpty]; congr 1; apply propext; omega
+  · unfold Gen.verifyConsistencyChain
+    by_cases h : treeSize = 0
+    · simp [h]
+    · have h' : ¬ ((treeSize : Int) = 0) := by omega
+      simp [h, h']
 
 /-- every leaf of a batch is built for index `start + j`, and the batch covers `[start, start + n)` -/
 theorem leaf_index_arith (start j n : Int) (h0 : 0 ≤ start) (hj : 0 ≤ j) (hn : 0 ≤ n) (h : start + j < 2^63) (h' : start + n < 2^63) :
@@ -121,12 +127,10 @@ theorem gate_means {α Hash : Type} [DecidableEq Hash] (leafH : α → Hash) (no
   · cases h0
   · exact Merkle.verifyConsistency_sound leafH nodeH emptyH srcLeaves t pf destRoot nc ht h0
 
-/-- the order of `verifyConsistency`'s tests and the arguments it hands to `proof.VerifyConsistency`, regenerated: empty root
-first, then the operator's switch, then the proof request; sizes `(treeSize, sth.TreeSize)`, then the proof, then the roots
+/-- the arguments `verifyConsistency` hands to `proof.VerifyConsistency`, regenerated with locals followed (the order of its tests —
+empty root first, then the operator's switch, then the proof request — is `C20Tie.verifyConsistency_tie` over the regenerated body): sizes `(treeSize, sth.TreeSize)`, then the proof, then the roots
 `(destination root, STH root)` — the argument order of `gate` / `Merkle.verifyConsistency` above -/
 theorem gate_order_and_args :
-    Gen.gateOrder = ["if treeSize == 0", "if c.opts.NoConsistencyCheck", "if err != nil",
-      "return proof.VerifyConsistency(rfc6962.DefaultHasher, treeSize, sth.TreeSize, pf, rootHash, sth.SHA256RootHash[:])"] ∧
     Gen.verifyConsistencyArgs = ["rfc6962.DefaultHasher", "treeSize", "sth.TreeSize", "pf", "rootHash", "sth.SHA256RootHash[:]"] := by
   decide
 
